@@ -178,18 +178,46 @@ def build_driver():
     return rc == 0, out
 
 
+# Feature configurations of the crate under test (harness cargo arguments).  A profile string may
+# carry a configuration as "<profile>@<config>" (e.g. "release@noopt"), so that results, replay
+# files and ./check --replay name the binary they belong to.
+CONFIGS = {
+    "default": "",
+    "noopt": "--no-default-features",       # std, encoder, xz, lzip WITHOUT the crate's `optimization` feature
+}
+
+
+def split_profile(profile, config="default"):
+    if "@" in profile:
+        profile, config = profile.split("@", 1)
+    return profile, config
+
+
 def harness_bin(profile="release", config="default"):
+    profile, config = split_profile(profile, config)
     sub = "release" if profile == "release" else profile
     return os.path.join(CARGO_TARGET + ("" if config == "default" else "-" + config), sub, "lzverif")
 
 
 def build_harness(profile="release", hooks=True, config="default", features=None):
     """cargo build of the harness against /repo's current working tree."""
+    profile, config = split_profile(profile, config)
+    if features is None:
+        features = CONFIGS.get(config, "")
     env = dict(ENV)
     if hooks:
         env["RUSTFLAGS"] = f"--cfg {GUARD}"
     if config != "default":
         env["CARGO_TARGET_DIR"] = CARGO_TARGET + "-" + config
+    # the area registry is generated by harness/build.rs from the a_*.rs files present: make sure it
+    # is regenerated whenever that set changes (cargo's directory mtime tracking is not reliable here)
+    hdir = os.path.join(VERIF, "harness")
+    names = ",".join(sorted(f for f in os.listdir(os.path.join(hdir, "src")) if f.startswith("a_")))
+    stamp = os.path.join(BUILD, "areas.list")
+    os.makedirs(BUILD, exist_ok=True)
+    if not os.path.exists(stamp) or open(stamp).read() != names:
+        os.utime(os.path.join(hdir, "build.rs"), None)
+        open(stamp, "w").write(names)
     prof = "--release" if profile == "release" else f"--profile {profile}"
     feat = "" if not features else " " + features
     rc, out = sh(f"cargo build --offline {prof}{feat}", cwd=os.path.join(VERIF, "harness"), env=env, timeout=3000)
